@@ -256,7 +256,74 @@ impl Gen<'_> {
                 u.lines.push(l);
                 u.out.push(format!("{a}{b} x"));
             }
-            80..=86 => {
+            80..=82 => {
+                // here-documents wherever the grammar lets a newline follow the
+                // operator: the body is read at that newline, the rest of the
+                // command comes after the delimiter line
+                let n = self.rng.range(1, 3) as usize;
+                let body: Vec<String> = (0..n).map(|_| self.w()).collect();
+                let k = self.tell();
+                let v = self.v.clone();
+                let form = self.rng.below(7);
+                let push_body = |u: &mut Unit, indent: &str, delim: &str| {
+                    for w in &body {
+                        u.lines.push(format!("{indent}{w} $v"));
+                        u.out.push(format!("{w} {v}"));
+                    }
+                    u.lines.push(format!("{indent}{delim}"));
+                };
+                match form {
+                    0 => {
+                        let w = self.w();
+                        let op = if self.rng.bool() { "&&" } else { "||" };
+                        u.lines.push(format!("catfd 3 3<<EOF {op}"));
+                        push_body(&mut u, "", "EOF");
+                        u.lines.push(format!("echo {w}; tell {k}"));
+                        if op == "&&" {
+                            u.out.push(w);
+                        }
+                    }
+                    1 => {
+                        u.lines.push("catfd 3 3<<EOF |".into());
+                        push_body(&mut u, "", "EOF");
+                        u.lines.push(format!("relay 3; tell {k}"));
+                    }
+                    2 => {
+                        u.lines.push("if rc 0; then".into());
+                        u.lines.push("  catfd 3 3<<EOF".into());
+                        push_body(&mut u, "", "EOF");
+                        u.lines.push(format!("fi; tell {k}"));
+                    }
+                    3 => {
+                        let w = self.w();
+                        u.lines.push(format!("catfd 3 3<<E1; catfd 4 4<<E2; tell {k}"));
+                        push_body(&mut u, "", "E1");
+                        u.lines.push(format!("{w} second"));
+                        u.out.push(format!("{w} second"));
+                        u.lines.push("E2".into());
+                    }
+                    4 => {
+                        u.lines.push(format!("catfd 3 3<<-EOF; tell {k}"));
+                        push_body(&mut u, "\t", "EOF");
+                    }
+                    5 => {
+                        u.lines.push("{".into());
+                        u.lines.push("  catfd 3 3<<EOF".into());
+                        push_body(&mut u, "", "EOF");
+                        u.lines.push(format!("}}; tell {k}"));
+                    }
+                    _ => {
+                        let w = self.w();
+                        u.lines.push("for i in 1; do catfd 3 3<<EOF".into());
+                        push_body(&mut u, "", "EOF");
+                        u.lines.push(format!("echo {w}; done; tell {k}"));
+                        u.out.push(w);
+                    }
+                }
+                let last = u.lines.len() - 1;
+                u.tells.push((k, last));
+            }
+            83..=86 => {
                 let quoted = self.rng.bool();
                 let n = self.rng.range(1, 3);
                 let k = self.tell();
@@ -536,7 +603,7 @@ pub fn generate(rng: &mut Rng, tier: Tier) -> Case {
         g.rng.below(6) == 0
             && !units.last().is_some_and(|u| {
                 // a here-document delimiter must be followed by a newline
-                u.reads_stdin || u.lines.last().is_some_and(|l| l == "EOF")
+                u.reads_stdin || u.lines.last().is_some_and(|l| matches!(l.trim(), "EOF" | "E1" | "E2"))
             })
             // (keeps the expectation of what the verbose option echoes simple)
             && !units.iter().any(|u| u.verbose == Some(true));
